@@ -261,7 +261,7 @@ def run(ctx):
     rule = 'C14.layout'
     for f, nm in ((fa, 'strat_into_box'), (fb, 'strat_into_box_slow')):
         counters = []
-        for l in sorted(f.mut_scalars | {l for l, ds in f.defs.items() if len(ds) > 1}):
+        for l in sorted(f.mut_scalars | {l for l, ds in f.defs.items() if len(ds) > 1} | {l for l, ds in f.defs.items() if f.locals[l]['ty'] == 'usize' and f.local_name(l)}):
             if f.locals[l]['ty'] != 'usize':
                 continue
             ds = f.defs.get(l, [])
@@ -271,6 +271,19 @@ def run(ctx):
                     v = strip_refs(f.rvalue_expr(d[3], d[1]))
                     if v[0] == 'bin' and v[1] == 'Add' and norm(v[2]) == ('var', l, f.local_name(l)):
                         incs.append((d[1], v[3]))
+            # increments written through a `&mut` to the counter (a closure capture inlined as a loop body)
+            for bi, st, pl, rhs in q.stores(f):
+                rp = f.root_place(st['pl'])
+                tgt_ = strip_refs(pl)
+                if (rp is not None and rp[0] == ('var', l) and not rp[1]) or (tgt_[0] == 'var' and tgt_[1] == l):
+                    v = strip_refs(rhs)
+                    if v[0] == 'field' and strip_refs(v[1])[0] == 'bin':
+                        v = strip_refs(v[1])
+                    if v[0] == 'bin' and v[1] in ('Add', 'AddWithOverflow'):
+                        lhs_rp = None
+                        x = strip_refs(v[2])
+                        if norm(v[2]) == ('var', l, f.local_name(l)) or (x[0] == 'var' and x[1] == l):
+                            incs.append((bi, v[3]))
             if incs and any(d[0] == 'assign' and is_const(f.rvalue_expr(d[3], d[1]), 0) for d in ds):
                 counters.append((l, incs))
         ok = False
